@@ -108,6 +108,82 @@ pub fn mk_error(msgs: &[String]) -> TracedValue {
     serde_json::from_value(serde_json::json!({ "error": go(msgs) })).expect("error value")
 }
 
+// ---- the recorders' own value visitor -------------------------------------------------------
+
+/// What a recording subscriber of the harness saw in a value set: a `Visit` implementation of the
+/// harness's own, so that the recorders do not depend on the visitor of `tracing-tunnel` (the code
+/// under test): one entry per field name in first-occurrence order, a repeated name replaced in
+/// place; integers widened to 128 bits; `record_debug` as the rendered text; `record_error` as the
+/// messages along the source chain.
+#[derive(Default)]
+pub struct OwnVisitor(pub Vec<(String, TracedValue)>);
+
+impl OwnVisitor {
+    fn put(&mut self, field: &tracing_core::Field, value: TracedValue) {
+        let name = field.name();
+        match self.0.iter_mut().find(|(n, _)| n == name) {
+            Some(entry) => entry.1 = value,
+            None => self.0.push((name.to_owned(), value)),
+        }
+    }
+    fn finish(self) -> TracedValues<String> {
+        self.0.into_iter().collect()
+    }
+}
+
+impl tracing_core::field::Visit for OwnVisitor {
+    fn record_f64(&mut self, field: &tracing_core::Field, value: f64) {
+        self.put(field, TracedValue::Float(value));
+    }
+    fn record_i64(&mut self, field: &tracing_core::Field, value: i64) {
+        self.put(field, TracedValue::Int(i128::from(value)));
+    }
+    fn record_u64(&mut self, field: &tracing_core::Field, value: u64) {
+        self.put(field, TracedValue::UInt(u128::from(value)));
+    }
+    fn record_i128(&mut self, field: &tracing_core::Field, value: i128) {
+        self.put(field, TracedValue::Int(value));
+    }
+    fn record_u128(&mut self, field: &tracing_core::Field, value: u128) {
+        self.put(field, TracedValue::UInt(value));
+    }
+    fn record_bool(&mut self, field: &tracing_core::Field, value: bool) {
+        self.put(field, TracedValue::Bool(value));
+    }
+    fn record_str(&mut self, field: &tracing_core::Field, value: &str) {
+        self.put(field, TracedValue::String(value.to_owned()));
+    }
+    fn record_error(&mut self, field: &tracing_core::Field, value: &(dyn std::error::Error + 'static)) {
+        let mut msgs = vec![value.to_string()];
+        let mut cur = value.source();
+        while let Some(e) = cur {
+            msgs.push(e.to_string());
+            cur = e.source();
+        }
+        self.put(field, mk_error(&msgs));
+    }
+    fn record_debug(&mut self, field: &tracing_core::Field, value: &dyn std::fmt::Debug) {
+        let text = format!("{value:?}");
+        self.put(field, serde_json::from_value(serde_json::json!({ "object": text })).expect("object value"));
+    }
+}
+
+pub fn seen_in_values(values: &tracing_core::field::ValueSet<'_>) -> TracedValues<String> {
+    let mut v = OwnVisitor::default();
+    values.record(&mut v);
+    v.finish()
+}
+pub fn seen_in_record(record: &tracing_core::span::Record<'_>) -> TracedValues<String> {
+    let mut v = OwnVisitor::default();
+    record.record(&mut v);
+    v.finish()
+}
+pub fn seen_in_event(event: &tracing_core::Event<'_>) -> TracedValues<String> {
+    let mut v = OwnVisitor::default();
+    event.record(&mut v);
+    v.finish()
+}
+
 // ---- call sites and events ------------------------------------------------------------------
 use tracing_tunnel::{CallSiteData, CallSiteKind, TracingEvent, TracingLevel};
 
